@@ -39,23 +39,26 @@ PROPERTIES = {}
 PROPERTIES["C18"] = {
     "level": "model_checking",
     "jobs": [
-        K("c18_n2_s2_l3", module="c18"),
-        K("c18_n2_s2_l4_fair", tier="thorough", module="c18", timeout=3000),
-        K("c18_n2_s2_l4_unfair", tier="thorough", module="c18", timeout=3000),
+        K("c18_try_try_rel", timeout=900, mem_gb=14, shared_covers=True),
+        K("c18_try_close_try", timeout=900, mem_gb=14, shared_covers=True),
+        K("c18_rel_try_try", tier="thorough", timeout=900, mem_gb=14, shared_covers=True),
+        K("c18_try_rel_sleep_try", tier="thorough", timeout=1200, mem_gb=14, shared_covers=True),
     ],
     "functions_encoded": [
-        "shuttle_engine::future::batch_semaphore::{BatchSemaphore::{new_with_signature,acquire,try_acquire,release,close,"
-        "available_permits,reblock_if_unfair,enqueue_waiter,remove_waiter}, BatchSemaphoreState::{acquire_permits,"
-        "unblock_waiters_from_front}, PermitsAvailable::{acquire,release}, Acquire::{poll,drop}}",
-        "shuttle_engine::runtime::task::{Task::{block,unblock,sleep_unless_woken,wake}, waker::raw_waker_wake}",
-        "shuttle_engine::runtime::execution::ExecutionState::{with,me,get_mut,try_get,update_clock,increment_clock}",
+        "shuttle_engine::future::batch_semaphore::{BatchSemaphore::{new_with_signature, try_acquire, release, close, "
+        "available_permits, reblock_if_unfair}, BatchSemaphoreState::{acquire_permits, unblock_waiters_from_front}, "
+        "PermitsAvailable::{acquire, release}}",
+        "shuttle_engine::runtime::execution::ExecutionState::{with, me, update_clock, increment_clock}; Task::sleep_unless_woken",
     ],
-    "bounds_text": "tasks N=2, acquire slots S=2, steps L=3 (quick) / 4 (thorough, one instance per fairness mode); "
-    "initial permits 0..=3, batch sizes 1..=3, both fairness modes, acting task / op kind / slot / count symbolic at "
-    "every step; an Acquire may be polled by a task other than its creator; unwind 5",
-    "outside": "more than 2 tasks / 2 outstanding acquires / 4 operations; batch size 0 (acquire_permits asserts n>0); "
-    "upgrade(); tasks finishing while a waiter is queued (stale-waiter paths); real coroutine switching",
-    "rule": "ops alphabet: new_acquire(n), poll(slot), drop(slot), try_acquire(n), release(n), close, task-sleep.",
+    "bounds_text": "2 tasks; control skeletons (which task performs which operation) literal: [try,try,release], "
+    "[try,close,try] (quick) + [release,try,try], [try,release,sleep,try] (thorough); initial permits 0..=3, every batch size "
+    "1..=3 per operation and the fairness mode symbolic; after every operation: result, available permits, queue length and "
+    "closed flag equal the reference counting model; unwind 5",
+    "outside": "everything involving an Acquire future - queued waiters, FIFO order, grants, cancellation, wake-ups (the heart of "
+    "the property): with a queued Acquire CBMC's propositional post-processing exhausts 16 GB even for the fully concrete "
+    "skeleton [acquire, poll, release] (harnesses c18_new_poll_rel*, validated natively only); symbolic operation kinds; "
+    "3+ tasks; upgrade()",
+    "rule": "",
 }
 
 
@@ -131,3 +134,154 @@ PROPERTIES["C09"] = {
     "scheduler (coroutines); step bounds are covered only in the sense that a tree truncated at depth 2 is a tree",
     "rule": "",
 }
+
+
+_DECISION_FUNCS = [
+    "shuttle_engine::runtime::execution::{Execution::run_to_completion, ExecutionState::{schedule, advance_to_next_task, "
+    "is_step_bound_exceeded, finish_task, request_yield, exit_current_truncates_execution}, CurrentSchedule::{init, push_task, len, get_schedule}}",
+    "shuttle_engine::runtime::task::Task::{block, sleep, unblock, finish, detach, runnable, blocked, can_spuriously_wakeup, finished}",
+]
+_DECISION_BOUNDS = (
+    "one scheduling decision (plus the decision that follows it) of the real run_to_completion loop from every task table "
+    "with N tasks, each Runnable / Blocked / Blocked-spurious / Sleeping / Finished x attached / detached, built with the real "
+    "transition functions; any task as `current`; yield request symbolic; step bound mode {None, FailAfter(n), ContinueAfter(n)}, "
+    "n in 0..=4, recorded schedule length 2, reset point 0..=2; scheduler answer symbolic (any offered task, or None); unwind 5"
+)
+_DECISION_OUTSIDE = (
+    "more than 3 tasks; sequences of more than two decisions; the coroutine switch itself (task steps are a callback); "
+    "the panic raised from the verdict and its message (format_for_deadlock) are not executed"
+)
+
+def D(h, tier="quick", **kw):
+    return K(h, module="c03", tier=tier, timeout=1500, mem_gb=16, shared_covers=True, **kw)
+
+
+_D1 = ["c03_d1_c0_f0", "c03_d1_c0_f1"]
+_D2 = ["c03_d2_c0_f00", "c03_d2_c1_f00", "c03_d2_c0_f01", "c03_d2_c0_f10", "c03_d2_c0_f11", "c03_d2_c1_f01", "c03_d2_c1_f10"]
+_D3 = ["c03_d3_c0_f000", "c03_d3_c1_f000", "c03_d3_c2_f001", "c03_d3_c0_f010", "c03_d3_c1_f100"]
+_SKEL = (" One instance per control skeleton (which task ran last, which tasks are finished): literal, so that every index "
+         "into the task table is a constant for the solver; N=2: all 7 skeletons with an unfinished... see registry; N=3: 5 of 24.")
+
+PROPERTIES["C03"] = {
+    "level": "model_checking",
+    "jobs": [D(h) for h in _D1 + _D2[:2]] + [D(h, "thorough") for h in _D2[2:] + _D3],
+    "functions_encoded": _DECISION_FUNCS,
+    "bounds_text": "N = 1, 2 (quick: 4 skeletons), all N<=2 skeletons and 5 N=3 skeletons (thorough): " + _DECISION_BOUNDS + _SKEL,
+    "outside": _DECISION_OUTSIDE + "; verdicts of whole programs over the primitives (only the decision function is covered)",
+    "rule": "",
+}
+PROPERTIES["C08"] = {
+    "level": "model_checking",
+    "jobs": [D(h) for h in _D2[:3]] + [D(h, "thorough") for h in _D2[3:] + _D3],
+    "functions_encoded": _DECISION_FUNCS,
+    "bounds_text": "N = 2 (quick: 3 skeletons; thorough: all 7 plus 5 N=3 skeletons): " + _DECISION_BOUNDS + _SKEL,
+    "outside": _DECISION_OUTSIDE + "; wrapper schedulers (metrics, annotation, portfolio stop, nondeterminism check)",
+    "rule": "",
+}
+PROPERTIES["C13"] = {
+    "level": "model_checking",
+    "jobs": [D(h) for h in _D1 + _D2[:1]] + [D(h, "thorough") for h in _D2[1:]],
+    "functions_encoded": _DECISION_FUNCS,
+    "bounds_text": "N = 1, 2: " + _DECISION_BOUNDS + _SKEL,
+    "outside": _DECISION_OUTSIDE + "; iteration budgets of the schedulers, Runner::run's loop and return value, max_time",
+    "rule": "",
+}
+
+
+# ---- K-pure families (no ExecutionState): these are the harnesses that fit comfortably ----------------
+
+PROPERTIES["C01"] = {
+    "level": "model_checking",
+    "jobs": [
+        K("c01_replay_fidelity_3", module="kp", timeout=900),
+        K("c13_budget_replay_once", module="kp", timeout=600),
+    ],
+    "functions_encoded": [
+        "shuttle_schedulers::replay::ReplayScheduler::{new_from_schedule, new_execution, next_task, next_u64}",
+        "shuttle_engine::scheduler::data::random::RandomDataSource::{initialize, reinitialize, next_u64}",
+    ],
+    "bounds_text": "every recorded schedule of 3 steps over {Task(0), Task(1), Random} (27 schedules in one query), both tasks "
+    "offered at every decision, `current` and `is_yielding` arbitrary; concrete data seed 11; unwind 6. Asserted: the task "
+    "returned is exactly the recorded one, a Random marker is consumed by exactly one draw whose value is the seeded "
+    "stream's next value, replay performs exactly one execution and reports the recorded seed",
+    "outside": "recording side inside a running execution (ExecutionState::schedule/advance_to_next_task/next_u64: the "
+    "engine-level harnesses exceed the solver's memory, DESIGN.md 2.1); schedules longer than 3 steps, more than 2 tasks, "
+    "offered lists that omit the recorded task (refusal path panics, not modelled); the string form (C16); "
+    "whole-program record->replay equality; the uncontrolled-nondeterminism checker",
+    "rule": "",
+}
+
+PROPERTIES["C05"] = {
+    "level": "model_checking",
+    "jobs": [
+        K("c05_park_seq4", timeout=600),
+        K("c05_park_seq6", tier="thorough", timeout=1800),
+    ],
+    "functions_encoded": ["shuttle_engine::runtime::task::Task::{park, unpark, unblock, block, runnable, blocked, can_spuriously_wakeup}"],
+    "bounds_text": "every sequence of 4 (quick) / 6 (thorough) operations over {park, unpark, spurious wake-up by the "
+    "scheduler, block on something else} on one task, op kind symbolic at every step; unwind 6/8",
+    "outside": "Condvar, Barrier and Once (their code runs inside an execution and exceeds the solver's memory, DESIGN.md 2.1); "
+    "the std-level park()/unpark() wrappers in shuttle-std/src/thread.rs (they add the scheduling points around Task::park/unpark)",
+    "rule": "",
+}
+
+PROPERTIES["C17"] = {
+    "level": "model_checking",
+    "jobs": [
+        K("c17_wake_seq4", module="c05", timeout=600),
+        K("c17_wake_seq6", module="c05", tier="thorough", timeout=1800),
+    ],
+    "functions_encoded": ["shuttle_engine::runtime::task::Task::{sleep_unless_woken, wake (through abort), sleep, unblock, finish, abort}"],
+    "bounds_text": "every sequence of 4 (quick) / 6 (thorough) operations over {executor puts the task to sleep after a Pending "
+    "poll, waker invoked, task finishes} on one task, op kind symbolic at every step; unwind 6/8",
+    "outside": "the executor loop itself (Task::from_future), JoinHandle/Wrapper (result delivery, abort, detach), block_on: "
+    "they run inside an execution with coroutines and exceed what the solver can encode (DESIGN.md 2.1)",
+    "rule": "",
+}
+
+PROPERTIES["C20"] = {
+    "level": "model_checking",
+    "jobs": [
+        K("c20_map_constructors_fixed_hasher", timeout=900),
+        K("c20_set_constructors_fixed_hasher", timeout=900),
+    ],
+    "functions_encoded": [
+        "deterministic_collections::HashMap::{new, with_capacity, default, from([..]), from_iter, from(std map), clone}",
+        "deterministic_collections::HashSet::{new, with_capacity, default, from_iter, from(std set), bitor, bitand, bitxor, sub}",
+    ],
+    "bounds_text": "every u64 probe key; empty collections (the hasher of a collection does not depend on its contents); "
+    "RandomState::new is stubbed to keys different from the fixed ones, so any constructor reaching it is caught; unwind 4",
+    "outside": "parking_lot, DashMap/DashSet, rand and lazy_static wrappers (they run inside an execution: DESIGN.md 2.1); "
+    "equality of iteration order across processes is argued from equality of hasher keys, not run; non-empty collections",
+    "rule": "",
+}
+
+PROPERTIES["C08"] = {
+    "level": "model_checking",
+    "jobs": [K("c08_metrics_wrapper_transparent", module="kp", timeout=600)],
+    "functions_encoded": ["shuttle_engine::scheduler::metrics::MetricsScheduler::{new, new_execution, next_task, next_u64, record_and_reset_metrics}"] + _DECISION_FUNCS,
+    "bounds_text": "MetricsScheduler around an inner scheduler with symbolic answers: task lists [t2] and [t0,t2], any `current`, "
+    "any is_yielding, any draw value, inner new_execution Some/None, across an execution boundary",
+    "outside": "the runtime side of the contract (what ExecutionState::schedule hands to the scheduler and which task then runs): "
+    "the engine-level harness (kani/core/src/c03.rs, validated natively) does not finish symbolic execution in 30 min / "
+    "exhausts 50 GB in CBMC's propositional post-processing (DESIGN.md 2.1); annotation / portfolio-stop / "
+    "nondeterminism-check wrappers",
+    "rule": "",
+}
+
+PROPERTIES["C13"] = {
+    "level": "model_checking",
+    "jobs": [
+        K("c13_budget_round_robin", module="kp", timeout=600),
+        K("c13_budget_replay_once", module="kp", timeout=600),
+    ],
+    "functions_encoded": ["shuttle_schedulers::round_robin::RoundRobinScheduler::{new, new_execution}",
+                          "shuttle_schedulers::replay::ReplayScheduler::new_execution"] + _DECISION_FUNCS,
+    "bounds_text": "iteration budgets 0..=3 (symbolic) of the round-robin scheduler and the single execution of the replay "
+    "scheduler: new_execution returns Some exactly budget times, then None forever (5 calls)",
+    "outside": "step-bound enforcement inside ExecutionState::schedule (engine-level harness kani/core/src/c03.rs: validated "
+    "natively, beyond the solver: DESIGN.md 2.1); budgets of the random / PCT / "
+    "DFS schedulers (env-var reads and unbounded rejection-sampling loops in `rand`); Runner::run's loop and count; max_time",
+    "rule": "",
+}
+del PROPERTIES["C03"]
